@@ -2,23 +2,31 @@ import Magog.Lemmas.UciTotal
 import Magog.Lemmas.TotalApply
 import Magog.Props.C02
 
-/-! Property C17 with the precondition on loaded positions where it belongs: ON THE INPUT LINE.
+/-! Property C17 for the operations the driver runs, and the (now historical) generalisation of the totality
+    chain by a predicate `FenOk` on loaded positions.
 
-FINDING. `OpsTotal`'s field `fen : ∀ s p, parseFen s = .ok (.ok p) → G p` cannot be discharged for the real
-operations with any `G` on which `perft` is total: the FEN loader accepts positions in which the side NOT to move
-is in check (`fenCheckWitness`, Lemmas/UciFenWitness.lean: `4k3/8/8/8/8/8/8/4RK2 w - - 0 1`), the generator then
-emits the capture of the enemy king, `MakeMove` does not book it, and `perft 3` panics. So "FENs sent to the
-engine are legal positions" is one more UCI precondition, like "listed moves are legal".
+HISTORY. About the UNREPAIRED engine, `OpsTotal`'s field `fen : ∀ s p, parseFen s = .ok (.ok p) → G p` could not be
+discharged for the real operations with any `G` on which `perft` is total: the FEN loader accepted positions in
+which the side NOT to move is in check (`4k3/8/8/8/8/8/8/4RK2 w - - 0 1`), the generator then emitted the capture of
+the enemy king, `MakeMove` did not book it, and `perft 3` panicked. This was proved (`opsTotal_modelOps_false`,
+`fenCheckWitness_accepted` in Lemmas/UciFenWitness.lean, headline `C17.modelOps_opsTotal_false` /
+`C17.fen_check_witness`) and led to the repair: `NewPositionFromFen` now rejects such a FEN ("the side that is not
+to move is in check"), and `C08.fen_oppSafe` proves that every accepted position satisfies `MM.OppSafe`. The
+negative theorems are false about the repaired model and have been removed; the positive statement
+`modelOps_opsTotal` (below; all hypotheses discharged in Lemmas/Total.lean) replaces them, and the headline theorems
+of C17 carry the original precondition `Pre` / `SessionPre` again.
 
-This file generalises the totality chain of `UciTotal.lean` by a predicate `FenOk` on loaded positions:
+What remains of the generalisation (kept as lemmas; `FenOk := fun _ => True` gives back `OpsTotal` / `Pre`):
 * `OpsTotalF ops G Legal FenOk`: as `OpsTotal`, but a loaded position has to satisfy `G` only if it satisfies `FenOk`;
 * `PreF ops Legal FenOk st line`: `Pre` (listed moves legal) AND the position this line loads from a FEN — if it is a
-  `position` command with a FEN the loader accepts — satisfies `FenOk`. A condition on the line only; void for lines
-  that are not `position` commands and for `position startpos …`; does not mention `G`;
+  `position` command with a FEN the loader accepts — satisfies `FenOk`;
 * `uciStep_total_F`, `uciRun_total_F`;
-* `modelOps_opsTotalF`: the operations the driver runs, with `G := GoodPos = Inv ∧ OppSafe`, `FenOk := OppSafe`,
+* `modelOps_opsTotal` / `modelOps_opsTotalF`: the operations the driver runs, with `G := GoodPos = Inv ∧ OppSafe`,
   `Legal := LegalGen` (the move string denotes a generated move which `MakeMove` accepts): `start`, `fen`, `apply`
-  are PROVED (C02, TotalApply); evaluation and the two perfts remain hypotheses (C05 / C18). -/
+  are PROVED (C02, C08.fen_oppSafe, TotalApply); evaluation and the two perfts are hypotheses here, discharged in
+  Lemmas/Total.lean (C18);
+* Boolean checkers `preFB` / `sessionPreFB` for `PreF` / `SessionPreF` (hence, with the void test, for `Pre` /
+  `SessionPre` with `Legal := LegalGen`: `pre_of_genB`, `sessionPre_of_genB`). -/
 
 namespace Magog.UciTotal
 open Magog Magog.Model
@@ -124,6 +132,17 @@ theorem fenArg_str {ops ops' : EngineOps} (h : ops.str = ops'.str) (s : Bytes) :
 theorem preF_true_iff {ops : EngineOps} {Legal : Position → Move → Prop} {st : UciState} {line : Bytes} :
     PreF ops Legal (fun _ => True) st line ↔ Pre ops Legal st line :=
   ⟨fun h => h.1, fun h => ⟨h, fun _ _ _ _ _ _ _ => trivial⟩⟩
+
+/-- with the void condition on loaded positions `SessionPreF` is `SessionPre` -/
+theorem sessionPreF_true_iff {ops : EngineOps} {Legal : Position → Move → Prop} (lines : List Bytes) :
+    ∀ st, SessionPreF ops Legal (fun _ => True) st lines ↔ SessionPre ops Legal st lines := by
+  induction lines with
+  | nil => intro st; exact Iff.rfl
+  | cons l ls ih =>
+    intro st
+    unfold SessionPreF SessionPre
+    exact ⟨fun h => ⟨preF_true_iff.1 h.1, fun st' out hs => (ih st').1 (h.2 st' out hs)⟩,
+      fun h => ⟨preF_true_iff.2 h.1, fun st' out hs => (ih st').2 (h.2 st' out hs)⟩⟩
 
 theorem preF_mono {ops : EngineOps} {Legal : Position → Move → Prop} {F F' : Position → Prop} (hF : ∀ p, F p → F' p)
     {st : UciState} {line : Bytes} (h : PreF ops Legal F st line) : PreF ops Legal F' st line :=
@@ -354,9 +373,10 @@ def GoodPos (p : Position) : Prop := Inv p ∧ MM.OppSafe p
 
 theorem goodPos_start : GoodPos startPosition := ⟨inv_startPosition, Props.C02.oppSafe_start⟩
 
-/-- what the FEN loader accepts is well-formed; that the side not to move is not in check is the sender's business -/
-theorem goodPos_of_fen {s : Bytes} {p : Position} (h : parseFen s = .ok (.ok p)) (hS : MM.OppSafe p) : GoodPos p :=
-  ⟨Props.C02.fen_inv h, hS⟩
+/-- what the FEN loader accepts is well-formed (C02.fen_inv), and the side not to move is not in check
+    (C08.fen_oppSafe: the loader's own test, since the repair) -/
+theorem goodPos_of_fen {s : Bytes} {p : Position} (h : parseFen s = .ok (.ok p)) : GoodPos p :=
+  ⟨Props.C02.fen_inv h, Props.C08.fen_oppSafe h⟩
 
 /-- `ApplyUciMove` on a legal move string: no panic (in particular not the explicit one for an illegal result),
     and the position stays good -/
@@ -365,17 +385,27 @@ theorem applyUciMove_good {p : Position} {mv : Move} (hg : GoodPos p) (hl : Lega
   obtain ⟨m, hG, rfl, hacc⟩ := hl
   exact TotalApply.applyUciMove_total hg.1 hg.2 hG hacc
 
-/-- **The real operations.** With `G := Inv ∧ OppSafe`, legality through the generator, and the precondition
-    `OppSafe` on loaded FEN positions, `start`, `fen` and `apply` hold; what remains are the three hypotheses on
-    evaluation and perft over good positions. -/
-theorem modelOps_opsTotalF {blend : Blend} {tostr : Position → M Bytes}
+/-- **The real operations.** With `G := Inv ∧ OppSafe` and legality through the generator, `start`, `fen` and
+    `apply` hold; what remains are the three hypotheses on evaluation and perft over good positions (discharged in
+    Lemmas/Total.lean). No condition on loaded positions: the loader establishes `G` itself. -/
+theorem modelOps_opsTotal {blend : Blend} {tostr : Position → M Bytes}
     (heval : ∀ p, GoodPos p → ∃ v, evaluate blend p 0 = .ok v)
     (hperft : ∀ p d, GoodPos p → 0 < d → d < Gen.plyBufferCapacity →
       ∃ r, perftDivide Killers.empty Gen.plyBufferCapacity p d = .ok r)
     (htperft : ∀ p d, GoodPos p → 0 < d → d < Gen.plyBufferCapacity →
       ∃ r, tperftDivide Killers.empty Gen.plyBufferCapacity p d = .ok r) :
-    OpsTotalF (modelOps blend tostr) GoodPos LegalGen MM.OppSafe :=
-  ⟨goodPos_start, fun _ _ h hS => goodPos_of_fen h hS, heval, hperft, htperft, fun _ _ hg hl => applyUciMove_good hg hl⟩
+    OpsTotal (modelOps blend tostr) GoodPos LegalGen :=
+  ⟨goodPos_start, fun _ _ h => goodPos_of_fen h, heval, hperft, htperft, fun _ _ hg hl => applyUciMove_good hg hl⟩
+
+/-- the `…F` form, for any condition `FenOk` on loaded positions (it is not used any more) -/
+theorem modelOps_opsTotalF {blend : Blend} {tostr : Position → M Bytes} {FenOk : Position → Prop}
+    (heval : ∀ p, GoodPos p → ∃ v, evaluate blend p 0 = .ok v)
+    (hperft : ∀ p d, GoodPos p → 0 < d → d < Gen.plyBufferCapacity →
+      ∃ r, perftDivide Killers.empty Gen.plyBufferCapacity p d = .ok r)
+    (htperft : ∀ p d, GoodPos p → 0 < d → d < Gen.plyBufferCapacity →
+      ∃ r, tperftDivide Killers.empty Gen.plyBufferCapacity p d = .ok r) :
+    OpsTotalF (modelOps blend tostr) GoodPos LegalGen FenOk :=
+  opsTotalF_of_opsTotal (modelOps_opsTotal heval hperft htperft)
 
 /-! ### Boolean checkers of `PreF` / `SessionPreF` with `Legal := LegalGen`, for kernel-evaluated examples -/
 
@@ -483,5 +513,15 @@ theorem sessionPreF_of_B {ops : EngineOps} {kt : Killers} {f : Position → Bool
     have h2 := h.2
     rw [hs] at h2
     exact ih st' h2
+
+/-! ### … and of `Pre` / `SessionPre` with `Legal := LegalGen` (the void test on loaded positions) -/
+
+theorem pre_of_genB {ops : EngineOps} {kt : Killers} {st : UciState} {line : Bytes}
+    (h : preFB ops kt (fun _ => true) st line = true) : Pre ops LegalGen st line :=
+  preF_true_iff.1 (preF_of_B (FenOk := fun _ => True) (fun _ _ => trivial) h)
+
+theorem sessionPre_of_genB {ops : EngineOps} {kt : Killers} (lines : List Bytes) (st : UciState)
+    (h : sessionPreFB ops kt (fun _ => true) st lines = true) : SessionPre ops LegalGen st lines :=
+  (sessionPreF_true_iff lines st).1 (sessionPreF_of_B (FenOk := fun _ => True) (fun _ _ => trivial) lines st h)
 
 end Magog.UciTotal
